@@ -215,6 +215,23 @@ def main(argv=None):
                 print("G3-DISAGREE", b["function"], json.dumps(b["args"])[:160], "cpython:", json.dumps(b["cpython"])[:160], "engine:", json.dumps(b["engine"])[:160])
             print(f"CHECK-ERROR property={prop} the symbolic executor and CPython disagree on {g3['disagree']} of {g3['cases']} cross-check inputs (engine fault, no verdict)")
             return 3
+    # G7 (thorough tier): the call-site summaries admit what the real code does on the cross-check corpus
+    args.g7 = None
+    if thorough and not os.environ.get("PYVC_SKIP_G7") and not args.only:
+        try:
+            from selftest.summaries import conformance
+
+            args.g7 = conformance(args.repo, jobs=args.jobs, show=3)
+        except Exception as e:
+            args.g7 = {"error": f"{type(e).__name__}: {e}"}
+        g7 = args.g7
+        if g7.get("error"):
+            print(f"G7-SKIPPED property={prop} {g7['error'][:300]}")
+        elif g7["miss"] or g7["engine_errors"]:
+            for b in g7["examples"]:
+                print("G7-MISS", b["function"], json.dumps(b["args"])[:160], "cpython:", json.dumps(b["cpython"])[:160], "summary:", json.dumps(b["summary"])[:160])
+            print(f"CHECK-ERROR property={prop} a call-site summary excludes what the real code does on {g7['miss']} cross-check inputs (contract fault, no verdict)")
+            return 3
     results = run_all(targets, args.jobs)
 
     from pyvc.report import decide
